@@ -877,12 +877,14 @@ def checkRouting (P : Problem) (S : Solution) : List (Option Code) :=
 
 /-! ## Group 6: limits (limits.rs) -/
 
+def overLimit (lim : Option Int) (x : Int) : Bool := match lim with | some m => decide (x > m) | none => false
+
 def checkShiftLimitsTour (P : Problem) (t : Tour) : Option Code :=
   match findVehicle P t.vehicleId with
   | none => some .no_vehicle
   | some v =>
-    if (match v.maxDistance with | some m => decide (t.stat.distance > m) | none => false) then some .lim_distance
-    else if (match v.maxDuration with | some m => decide (t.stat.duration > m) | none => false) then some .lim_duration
+    if overLimit v.maxDistance t.stat.distance then some .lim_distance
+    else if overLimit v.maxDuration t.stat.duration then some .lim_duration
     else
       match v.tourSize with
       | none => none
